@@ -517,6 +517,11 @@ impl DrawState {
                 // instead of relying on the first new line to wrap.
                 term.write_line("")?;
             }
+            if n > 0 && !self.cursor_at_line_end {
+                // The cursor is not at the end of the last line to clear but on a fresh line
+                // below it (the previous draw ended without a bar line).
+                term.move_cursor_up(1)?;
+            }
             term.move_cursor_up(n.saturating_sub(1))?;
             for i in 0..n {
                 term.clear_line()?;
